@@ -94,6 +94,49 @@ type edit struct {
 	data          []byte
 }
 
+// flagSweeps enumerates every value of every flags byte.
+func flagSweeps(b *gen.Built, res *ref.XZResult) []edit {
+	var out []edit
+	lay := &res.Layout
+	hdr := lay.Find("stream_flags")[0]
+	ftr := lay.Find("ft_flags")[0]
+	for i := 0; i < 2; i++ {
+		for v := 0; v < 256; v++ {
+			for _, where := range []string{"header", "footer", "both"} {
+				d := append([]byte{}, b.Stream...)
+				if where != "footer" {
+					d[hdr.Off+i] = byte(v)
+					ref.Reseal(d, lay, hdr.Off)
+				}
+				if where != "header" {
+					d[ftr.Off+i] = byte(v)
+					ref.Reseal(d, lay, ftr.Off)
+				}
+				if bytes.Equal(d, b.Stream) {
+					continue
+				}
+				region := "stream_flags"
+				if where == "footer" {
+					region = "ft_flags"
+				}
+				out = append(out, edit{fmt.Sprintf("flags_sweep_%s_byte%d", where, i), region, d})
+			}
+		}
+	}
+	for _, sp := range lay.Find("bh_flags") {
+		for v := 0; v < 256; v++ {
+			if byte(v) == b.Stream[sp.Off] {
+				continue
+			}
+			d := append([]byte{}, b.Stream...)
+			d[sp.Off] = byte(v)
+			ref.Reseal(d, lay, sp.Off)
+			out = append(out, edit{"flags_sweep_block", "bh_flags", d})
+		}
+	}
+	return out
+}
+
 func structuralEdits(b *gen.Built, res *ref.XZResult) []edit {
 	var out []edit
 	lay := &res.Layout
@@ -413,6 +456,24 @@ func checkC04(c caseC04, rec *ev.Rec) *ev.Failure {
 			return f
 		}
 	}
+	// flag-byte sweeps: ALL 256 values of each byte of the stream flags (in the
+	// header only, in the footer only, in both) and of every block header's
+	// flags byte, covering CRC32 re-sealed. Whatever the reference decoder
+	// rejects here is a reserved bit, an unsupported check / filter id, a
+	// header/footer mismatch or a size/padding inconsistency caused by the
+	// re-interpreted header: it must be reported.
+	for _, e := range flagSweeps(b, res) {
+		if _, rerr := ref.DecodeXZ(e.data); rerr == nil {
+			rec.Class("sweep_value_still_valid")
+			if f := xzDamage(rec, b, checkID, e.data, e.fault, e.region, false); f != nil {
+				return f
+			}
+			continue
+		}
+		if f := xzDamage(rec, b, checkID, e.data, e.fault, e.region, true); f != nil {
+			return f
+		}
+	}
 	rec.Class("origin="+c.Src.Origin, fmt.Sprintf("check=%d", res.Streams[0].Check), fmt.Sprintf("blocks=%d", min(len(res.Streams[0].Blocks), 3)))
 	rec.Sample(c.Src.Origin+fmt.Sprint(hasCheck), map[string]any{"origin": c.Src.Origin, "stream_len": L, "content_len": len(b.Content), "check": res.Streams[0].Check, "blocks": len(res.Streams[0].Blocks)})
 	return nil
@@ -420,7 +481,7 @@ func checkC04(c caseC04, rec *ev.Rec) *ev.Failure {
 
 func TestC04(t *testing.T) {
 	rec := ev.New("C04", "fault_enumeration")
-	rec.Rule = "rapid draws valid single-stream .xz files (library / reference generator with size fields, extra padding, empty blocks / liblzma; all four check types; <= ~2 KiB); per file: every single-bit flip, insertion of {00,FF,21,drawn} and deletion at every offset, substitution by {00,FF,80,7F} at every offset, 10-40 drawn bursts <= 32 bits, and structural edits with re-sealed CRC32 (size fields altered / added with wrong value, index records, record count, backward size, header vs footer flags, non-zero header/block/index padding, reserved bits, unsupported check / filter ids, filter count, property size, dictionary code, wrong check value); oracle 1 (check-carrying files, any modification): never err == nil with content != original; oracle 2 (structural edits, also check-less): err != nil; evaluations = damaged files decoded; non-trivial = modification changes the file; distinct = hash(fault kind, field, bytes)"
+	rec.Rule = "rapid draws valid single-stream .xz files (library / reference generator with size fields, extra padding, empty blocks / liblzma; all four check types; <= ~2 KiB); per file: every single-bit flip, insertion of {00,FF,21,drawn} and deletion at every offset, substitution by {00,FF,80,7F} at every offset, 10-40 drawn bursts <= 32 bits, structural edits with re-sealed CRC32 (size fields altered / added with wrong value, index records, record count, backward size, header vs footer flags, non-zero header/block/index padding, reserved bits, unsupported check / filter ids, filter count, property size, dictionary code, wrong check value), and sweeps of ALL 256 values of each stream-flags byte (header only / footer only / both) and of every block-flags byte, re-sealed; oracle 1 (check-carrying files, any modification): never err == nil with content != original; oracle 2 (structural edits, also check-less): err != nil; evaluations = damaged files decoded; non-trivial = modification changes the file; distinct = hash(fault kind, field, bytes)"
 	rec.Assumptions = []string{"a payload modification that survives the range coder and yields a CRC32/CRC64/SHA-256 collision is ignored (probability <= 2^-32 per case)", "declared dictionaries <= 8 KiB so that each of the ~50 000 readers per file is cheap"}
 	drive(t, rec, drawC04, checkC04)
 }
